@@ -2,6 +2,8 @@ package main
 
 import "fmt"
 
+var schedAvailable = false
+
 func buildSched(b *built, race bool) error {
 	return fmt.Errorf("sched engine not built yet")
 }
